@@ -4,7 +4,7 @@ from __future__ import annotations
 
 from typing import Callable, Dict, Optional
 
-from .rules import (alias, align, cmp, construct, dispatch, flow, keys, ops, opt, pyx, reg, repres, sig,
+from .rules import (alias, align, anchored, cmp, construct, dispatch, flow, keys, ops, opt, pyx, reg, repres, sig,
                     small, structure, wrappers)
 
 def _cached(key, fn):
@@ -35,6 +35,10 @@ RULES: Dict[str, Callable] = {
     "R-UNSIGNED": _cached("R-UNSIGNED", flow.run_unsigned),
     "R-LAYOUT": _cached("R-LAYOUT", flow.run_layout),
     "R-LEAD": _cached("R-LEAD", structure.run_lead),
+    "R-DIVGUARD": _cached("R-DIVGUARD", anchored.run_divguard),
+    "R-SETDIM": _cached("R-SETDIM", anchored.run_setdim),
+    "R-CLEAN": _cached("R-CLEAN", anchored.run_clean),
+    "R-POWER": _cached("R-POWER", anchored.run_power),
     "R-GRAD": _cached("R-GRAD", structure.run_grad),
     "R-ALIGNFN": _cached("R-ALIGNFN", structure.run_alignfn),
     "R-NAMES": _cached("R-NAMES", construct.run_names),
@@ -69,12 +73,32 @@ class Use:
         self.clause = clause
 
 
-def S(rule, clause=""):
-    return Use(rule, scoped=True, clause=clause)
+def S(rule, clause="", only=None):
+    return Use(rule, scoped=True, clause=clause, only=only)
 
 
-def G(rule, clause=""):
-    return Use(rule, scoped=False, clause=clause)
+def G(rule, clause="", only=None):
+    return Use(rule, scoped=False, clause=clause, only=only)
+
+
+def in_files(*parts):
+    return lambda f: any(part in f.relpath for part in parts)
+
+
+def in_funcs(*names):
+    return lambda f: f.function.split(".")[-1] in names
+
+
+def msg(*subs):
+    return lambda f: any(sub in f.message or sub in f.construct for sub in subs)
+
+
+def no_msg(*subs):
+    return lambda f: not any(sub in f.message or sub in f.construct for sub in subs)
+
+
+COMBINING = msg("are combined but dtype")
+ORDERING_FUNCS = in_funcs("greater", "greater_equal", "less", "less_equal", "maximum", "minimum")
 
 
 PLAN: Dict[str, dict] = {
@@ -85,9 +109,11 @@ PLAN: Dict[str, dict] = {
             S("R-ALIGN", "operands are aligned before columns are combined; names aligned before exponent rows are added"),
             S("R-KEYS", "every key of a result buffer is written before the buffer escapes"),
             G("R-PYX-MUL", "products: set on first sight of a key, accumulate afterwards; key encoder width"),
-            G("R-OPT-PINNED", "alignment pins the retain flags, so aligned operands keep one layout under every option setting"),
-            S("R-DTYPE", "result dtype of a combination depends on all operands"),
-            G("R-ALIGNFN", "align_exponents rebuilds every operand (consumers read .values of fresh, contiguous results)"),
+            G("R-OPT-PINNED", "alignment pins the retain flags, so aligned operands keep one layout under every option setting", only=in_files("numpoly/align.py")),
+            S("R-DTYPE", "result dtype of a combination depends on all operands", only=COMBINING),
+            G("R-ALIGNFN", "align_exponents rebuilds every operand (consumers read .values of fresh, contiguous results)", only=msg("operand not rebuilt")),
+            G("R-POWER", "scalar power = one multiplied by the base exactly n times"),
+            G("R-CLEAN", "the clean-up after each operation drops exactly the all-zero non-constant terms", only=in_funcs("remove_redundant_coefficients")),
         ],
         "explanation": "Structural clauses of exact ring arithmetic: (1) add/subtract/negative/positive hand the "
                        "coefficient storage to the numpy function they are registered for, operands in parameter order; "
@@ -102,7 +128,7 @@ PLAN: Dict[str, dict] = {
         "uses": [
             G("R-GUARDS", "TypeError for unknown / doubly supplied names dominates evaluation"),
             G("R-TWIN", "the polynomial and the numeric branch of the evaluation loop receive the same operands"),
-            S("R-UNSIGNED", "no caller value meets an unsanitised uint32 exponent (value independent of the argument's type)"),
+            G("R-UNSIGNED", "no caller value meets an unsanitised uint32 exponent (value independent of the argument's type)", only=in_funcs("call")),
         ],
         "explanation": "call(): branches raising TypeError for an unknown and for a doubly supplied indeterminate exist and every "
                        "path into the evaluation loop passed the unknown-name guard; numpoly.outer and numpy.outer receive the same "
@@ -117,9 +143,9 @@ PLAN: Dict[str, dict] = {
             G("R-CODEC", "key <-> exponent codec uses one constant with opposite signs"),
             G("R-FINAL", "metadata set in __new__ equals the set copied in __array_finalize__"),
             G("R-NAMES", "constructors fed with raw storage / exponent rows receive the input's names"),
-            G("R-PAIR", "exponents and coefficients are paired by one traversal order"),
+            G("R-PAIR", "exponents and coefficients are paired by one traversal order", only=no_msg("monoms")),
             G("R-OPT-LAYERS", "retain_* options only replace an omitted (None) argument"),
-            G("R-GETITEM", "indexing rebuilds with the same exponents and names"),
+            G("R-CLEAN", "exactly the all-zero non-constant terms and the unused names are dropped", only=in_funcs("remove_redundant_coefficients", "remove_redundant_names")),
         ],
         "explanation": "Construction goes through validated constructors: every normal return of postprocess_attributes passed the "
                        "2-d / length / name-count / duplicate-name / duplicate-exponent checks; encode/decode of storage keys use "
@@ -130,10 +156,10 @@ PLAN: Dict[str, dict] = {
     },
     "C04": {
         "uses": [
-            G("R-ALIGNFN", "results in argument order; unions range over all arguments; names in integer index order"),
-            G("R-OPT-PINNED", "aligned layout pinned independently of the global options"),
-            S("R-ALIAS", "no argument is modified"),
-            S("R-NAMES", "rebuilt operands keep their names"),
+            G("R-ALIGNFN", "results in argument order; unions range over all arguments; names in integer index order", only=no_msg("operand not rebuilt")),
+            G("R-OPT-PINNED", "aligned layout pinned independently of the global options", only=in_files("numpoly/align.py")),
+            G("R-ALIAS", "no argument is modified", only=in_files("numpoly/align.py")),
+            G("R-NAMES", "rebuilt operands keep their names", only=in_files("numpoly/align.py")),
         ],
         "explanation": "Each align_* function returns tuple(list of per-argument images) in argument order where slot i is only "
                        "replaced by a value computed from argument i; the common shape / names / exponents are computed over all "
@@ -143,9 +169,9 @@ PLAN: Dict[str, dict] = {
     },
     "C05": {
         "uses": [
-            G("R-OPS", "/, %, divmod and reflected forms route to poly_divide/poly_remainder/poly_divmod, components 0/1"),
+            G("R-OPS", "/, %, divmod and reflected forms route to poly_divide/poly_remainder/poly_divmod, components 0/1", only=lambda f: any(k in f.function for k in ("div", "mod", "remainder"))),
             S("R-ALIGN", "dividend and divisor are aligned on entry and after every reduction step"),
-            S("R-UNSIGNED", "the exponent subtraction is guarded by the candidate selection"),
+            G("R-UNSIGNED", "the exponent subtraction is guarded by the candidate selection", only=in_funcs("poly_divmod", "get_division_candidate")),
         ],
         "explanation": "Third sentence in full (operator routing with operand order, poly_divide/poly_remainder = components 0/1 of "
                        "poly_divmod); inside the loop get_division_candidate only ever receives operands that came out of one "
@@ -157,7 +183,7 @@ PLAN: Dict[str, dict] = {
     },
     "C06": {
         "uses": [
-            S("R-UNSIGNED", "differentiation does not rely on clean-up to discard a wrapped unsigned exponent"),
+            G("R-UNSIGNED", "differentiation does not rely on clean-up to discard a wrapped unsigned exponent", only=in_funcs("derivative")),
             G("R-COLIDX", "the column index comes from the names of the polynomial whose exponent columns are indexed"),
             G("R-LAYOUT", "positional column indices only on polynomials whose names layout is option-independent"),
             G("R-GRAD", "gradient stacks derivative over all names in order; hessian = gradient of gradient"),
@@ -172,7 +198,7 @@ PLAN: Dict[str, dict] = {
     "C07": {
         "uses": [
             G("R-CMP", "one template for the six comparison functions, maximum/minimum and the equality folds"),
-            G("R-OPT-PAIRING", "sort_graded/sort_reverse paired with graded=/reverse="),
+            G("R-OPT-PAIRING", "sort_graded/sort_reverse paired with graded=/reverse=", only=ORDERING_FUNCS),
             G("R-STABLE", "the monomial order itself is platform independent"),
             S("R-ORDER", "operands of the comparison ufuncs in parameter order"),
             S("R-ALIGN", "columns compared by position only after alignment"),
@@ -207,7 +233,7 @@ PLAN: Dict[str, dict] = {
             S("R-NAMES", "names preserved wherever raw storage is re-wrapped"),
             G("R-GETITEM", "the same index applied to every column"),
             S("R-ALIGN", "joining functions align first"),
-            S("R-DTYPE", "joined / selected results take a dtype depending on all operands"),
+            S("R-DTYPE", "joined / selected results take a dtype depending on all operands", only=COMBINING),
         ],
         "explanation": "Each shape function hands the raw structured storage to the numpy function it is registered for, with all "
                        "shape/axis/index parameters used and not cross-wired, every call signature-valid for the installed numpy, and "
@@ -224,7 +250,7 @@ PLAN: Dict[str, dict] = {
             S("R-ALIGN", "diff/inner/outer combine columns only after alignment"),
             S("R-ORDER", "operand order of non-commutative delegates"),
             S("R-SIG", "prod/matmul reach a signature-valid reshape"),
-            G("R-REG", "add.reduce / add.accumulate / method spellings reach the same function"),
+            G("R-REG", "add.reduce / add.accumulate / method spellings reach the same function", only=lambda f: any(n in f.function + f.message + f.construct for n in ("sum", "cumsum", "mean", "prod", "diff", "inner", "outer", "matmul", "det", "REDUCE_MAPPINGS", "ACCUMULATE_MAPPINGS"))),
             S("R-KEYS", "result buffers are fully written"),
         ],
         "explanation": "sum/cumsum/mean dispatch their namesake per aligned key with axis/dtype/keepdims forwarded; diff aligns a, "
@@ -289,9 +315,8 @@ PLAN: Dict[str, dict] = {
     "C15": {
         "uses": [
             G("R-OPT-LAYERS", "options are read only by their own layer; retain_* only as default of None"),
-            G("R-OPT-PAIRING", "sort/display keys paired with the right parameter"),
             G("R-OPT-PINNED", "layout-critical constructions pin the retain flags"),
-            G("R-UNSIGNED", "differentiation does not depend on clean-up"),
+            G("R-UNSIGNED", "differentiation does not depend on clean-up", only=in_funcs("derivative")),
             G("R-NAMES", "names never fall back to positional defaults when storage is re-wrapped"),
             G("R-LAYOUT", "derivative's column indices never meet an option-dependent names layout"),
         ],
@@ -304,10 +329,10 @@ PLAN: Dict[str, dict] = {
     "C16": {
         "uses": [
             G("R-FLOW", "display-order options influence only the iteration order; sign options only the joiners"),
-            G("R-OPT-LAYERS", "display_* read only in _to_string"),
-            G("R-OPT-PAIRING", "display_graded/display_reverse paired with graded/reverse"),
+            G("R-OPT-LAYERS", "display_* read only in _to_string", only=msg("'display_")),
+            G("R-OPT-PAIRING", "display_graded/display_reverse paired with graded/reverse", only=in_funcs("_to_string")),
             G("R-STABLE", "term order platform independent"),
-            G("R-PAIR", "sympy import pairs monoms() and coeffs() of one ordering"),
+            G("R-PAIR", "sympy import pairs monoms() and coeffs() of one ordering", only=msg("monoms")),
         ],
         "explanation": "_to_string: display_graded/display_reverse are only arguments of the glexsort that orders the terms, "
                        "display_inverse only guards a full reversal, the loop iterable is glexsort(all exponents) or its complete "
@@ -325,7 +350,8 @@ PLAN: Dict[str, dict] = {
     },
     "C18": {
         "uses": [G("R-STABLE", "no unstable sort primitive in the composed sort"), S("R-FWD", "graded/reverse/cross_truncation forwarded"),
-                 G("R-OPT-PAIRING", "glexindex/monomial/bindex forward graded/reverse to their callee")],
+                 G("R-DIVGUARD", "cross_truncate divides by the bound only after excluding negative and zero components"),
+                 G("R-OPT-PAIRING", "glexindex/monomial/bindex forward graded/reverse to their callee", only=in_files("numpoly/utils/", "construct/monomial.py"))],
         "explanation": "glexsort's second (graded) sort is stable; glexindex/bindex/monomial forward graded/reverse/"
                        "cross_truncation under their own names.",
         "not_decided": "that the index sets and norms are numerically right (cross_truncate, _glexindex are value-level)",
@@ -334,9 +360,11 @@ PLAN: Dict[str, dict] = {
         "uses": [
             G("R-LEAD", "lead_exponent/lead_coefficient: same ascending walk, zero-initialised"),
             G("R-GUARDS", "tonumpy returns only for constants"),
-            G("R-OPT-PINNED", "set_dimensions pins retain_names"),
-            G("R-OPT-PAIRING", "argmax/argmin/amax/amin and sortable_proxy forward the paired sort options"),
+            G("R-OPT-PINNED", "set_dimensions pins retain_names", only=in_funcs("set_dimensions", "decompose")),
+            G("R-OPT-PAIRING", "argmax/argmin/amax/amin and sortable_proxy forward the paired sort options", only=in_funcs("sortable_proxy", "argmax", "argmin", "amax", "amin", "lead_exponent", "lead_coefficient")),
             S("R-KEYS", "set_dimensions cannot return an unwritten buffer"),
+            G("R-SETDIM", "dropping trailing indeterminates keeps exactly the terms free of them"),
+            G("R-CLEAN", "isconstant ignores exactly the constant term", only=in_funcs("isconstant")),
             S("R-SIG", "amax/amin reach a signature-valid reshape"),
         ],
         "explanation": "lead_exponent and lead_coefficient are the same ascending glexsort(graded, reverse) walk overwriting where "
@@ -349,8 +377,8 @@ PLAN: Dict[str, dict] = {
         "uses": [
             G("R-CODEC", "key codec is one constant with opposite signs at encode/decode sites"),
             G("R-PYX-MUL", "the product-key builder does not narrow"),
-            G("R-HEADER", "header delimiters are outside the key alphabet; decoding is strict"),
-            S("R-ALIAS", "the constructor does not shift a caller's exponent array in place"),
+            G("R-HEADER", "header delimiters are outside the key alphabet; decoding is strict", only=msg("delimiter", "errors=", "HEADER_TEMPLATE")),
+            G("R-ALIAS", "the constructor does not shift a caller's exponent array in place", only=lambda f: f.function.endswith("__new__") or "numpoly/construct/" in f.relpath),
         ],
         "explanation": "Keys are built as exponents + KEY_OFFSET and decoded as uint32 view - KEY_OFFSET at every site; the constant "
                        "exceeds ':' and every header delimiter; the text reader decodes strictly; the C product-key encoder's "
